@@ -15,6 +15,7 @@ package c30
 
 import (
 	"sort"
+	"strings"
 )
 
 type tri int
@@ -161,6 +162,26 @@ func classOf(v, now int64, had bool) string {
 	return "future"
 }
 
+// lineage names the operation for a step that inherits the candidate readings of earlier
+// unspecified steps: "<earlier steps>+<this step>" (at most four, the oldest and the newest
+// three), so that the signature still names every step that may be the root.
+func lineage(r *rec, via string) string {
+	if len(r.Cands) <= 1 {
+		return via
+	}
+	parts := append(strings.Split(r.Via, "+"), via)
+	var out []string
+	for _, p := range parts {
+		if len(out) == 0 || out[len(out)-1] != p {
+			out = append(out, p)
+		}
+	}
+	if len(out) > 4 {
+		out = append(out[:1:1], out[len(out)-3:]...)
+	}
+	return strings.Join(out, "+")
+}
+
 func (m *model) setCands(r *rec, c []int64, via string) {
 	r.Cands = c
 	r.Had = r.Had || anyNonZero(c)
@@ -199,7 +220,7 @@ func (m *model) applySet(key string, spec *expSpec, void bool, base int64) {
 	}
 	// Set on an existing record without a usable ExpiredAt: unspecified whether the old expiry
 	// survives or the record is reset to "no expiry".
-	m.setCands(r, uniq(append(append([]int64(nil), r.Cands...), 0)...), via+"-noexp")
+	m.setCands(r, uniq(append(append([]int64(nil), r.Cands...), 0)...), lineage(r, via+"-noexp"))
 }
 
 // applyMeta applies a PatchMeta to an existing/created record.
@@ -217,7 +238,7 @@ func (m *model) applyMeta(r *rec, ms *metaSpec, base int64, viaPrefix string) {
 			m.setCands(r, []int64{v}, viaPrefix+"-set")
 		} else {
 			// SetExpiredAt = 1970-01-01T00:00:00Z: zero expiry; "set to never" or "ignored" both accepted
-			m.setCands(r, uniq(append([]int64{0}, r.Cands...)...), viaPrefix+"-setzero")
+			m.setCands(r, uniq(append([]int64{0}, r.Cands...)...), lineage(r, viaPrefix+"-setzero"))
 		}
 	}
 }
@@ -269,7 +290,7 @@ func (m *model) applyInc(key string, ifNot, ifExist *expSpec, condFail bool, bas
 		// unspecified whether SetIfExist metadata is applied when the condition is not met
 		if ifExist != nil {
 			v, _ := ifExist.nanos(base)
-			m.setCands(r, uniq(append(append([]int64(nil), r.Cands...), v)...), "inc-condfail")
+			m.setCands(r, uniq(append(append([]int64(nil), r.Cands...), v)...), lineage(r, "inc-condfail"))
 			r.WEpoch = m.epoch
 		}
 		return false, true
@@ -279,7 +300,7 @@ func (m *model) applyInc(key string, ifNot, ifExist *expSpec, condFail bool, bas
 		if v, valid := ifExist.nanos(base); valid {
 			m.setCands(r, []int64{v}, "inc-exist")
 		} else {
-			m.setCands(r, uniq(append([]int64{0}, r.Cands...)...), "inc-setzero")
+			m.setCands(r, uniq(append([]int64{0}, r.Cands...)...), lineage(r, "inc-setzero"))
 		}
 	}
 	return true, true
